@@ -267,17 +267,24 @@ structure WRel (env : Env) (η : Hp) (w : World) (gw : GWorld) : Prop where
   imm : ∀ loc c, (loc, c) ∈ η.imm → gw.heap[loc]? = some c ∧ ¬ loc ∈ η.locs
   /-- the no-spare-capacity growth policy: an `append` never writes into a backing array in place -/
   cap : gw.capPolicy = 0
+  /-- the same `go` schedule on both sides -/
+  eager : gw.eager = w.eager
 
 /-- printing: only `out` changes, the same way on both sides -/
 theorem WRel.print {env : Env} {η : Hp} {w : World} {gw : GWorld} (hw : WRel env η w gw) (s : String) :
     WRel env η { w with out := w.out ++ s } { gw with out := gw.out ++ s } :=
-  ⟨by simp [hw.out], hw.externs, hw.lenT, hw.lenL, hw.inj, hw.bound, hw.cells, hw.imm, hw.cap⟩
+  ⟨by simp [hw.out], hw.externs, hw.lenT, hw.lenL, hw.inj, hw.bound, hw.cells, hw.imm, hw.cap, hw.eager⟩
+
+/-- a spawned activation (non-eager `go`): neither side looks at the list again -/
+theorem WRel.spawn {env : Env} {η : Hp} {w : World} {gw : GWorld} (hw : WRel env η w gw) (v : Val) (g : GVal × List GVal) :
+    WRel env η { w with spawned := w.spawned ++ [v] } { gw with spawned := gw.spawned ++ [g] } :=
+  ⟨hw.out, hw.externs, hw.lenT, hw.lenL, hw.inj, hw.bound, hw.cells, hw.imm, hw.cap, hw.eager⟩
 
 /-- the empty store against the empty heap -/
 theorem WRel.init (env : Env) (eager : Bool) (fns : List (String × List Ty × Ty) := []) :
     WRel env { fns := fns } { eager := eager } { eager := eager, capPolicy := 0 } :=
   ⟨rfl, rfl, rfl, rfl, List.nodup_nil, fun gl h => by simp [Hp.locs] at h, fun l v h => by simp at h,
-    fun loc c h => by simp [Hp.imm] at h, rfl⟩
+    fun loc c h => by simp [Hp.imm] at h, rfl, rfl⟩
 
 /-! ### environments -/
 
